@@ -7,10 +7,6 @@ from props import c17_gen as g
 from props.c17_util import *
 
 
-def classify(c, io, mo):
-    return None
-
-
 def gen_cases(ctx):
     rng = ctx.rng
     quick = ctx.tier == "quick"
@@ -36,7 +32,7 @@ def run(ctx):
     sd, dd = dump_all(impl, [c["schema"] for c in cases], [c["doc"] for c in cases])
     ctx.cov["discarded_schema_invalid"] = sum(1 for v in sd.values() if v is None)
     ctx.cov["discarded_doc_syntax"] = sum(1 for v in dd.values() if v is None)
-    rows = correspond2(ctx, impl, model, "c17_valid", cases, sd, dd, classify)
+    rows = correspond2(ctx, impl, model, "c17_valid", cases, sd, dd)
     lab = Counter()
     for c, io, mo in rows:
         lab[(c["label"], first_word(mo))] += 1
